@@ -36,3 +36,9 @@ Example C01_ex2 : ctor KSqrt 26 10000 5 = RNum (-1) [5; 0; 9; 9; 0] false.
 Proof. vm_compute. reflexivity. Qed.
 Example C01_ex3 : ctor KSqrt 100489 1 6 = RNum 3 [3; 1; 7] true.
 Proof. vm_compute. reflexivity. Qed.
+
+(* the constants these theorems are about are the ones in the Go sources now (Generated/SrcParams.v, rewritten on
+   every run by harness/cmd/srcparams) *)
+Require SrcParamsOK.
+Definition C01_source_constants := (SrcParamsOK.compute_constants_v1, SrcParamsOK.compute_constants_v2, SrcParamsOK.compute_constants_v3,
+  SrcParamsOK.cube_next_digit_identities, SrcParamsOK.format_constants).
